@@ -82,6 +82,23 @@ pub fn assume(c: bool) {
     }
 }
 
+/// Run `f` as an async consumer would: inside an executor. Natively that is a real
+/// `futures_executor::block_on`, so a library call that starts a nested blocking executor panics, as it
+/// does in production; under Kani a flag is set that the `block_on` model checks.
+#[cfg(kani)]
+pub static mut IN_EXECUTOR: bool = false;
+#[cfg(kani)]
+pub fn in_executor<T>(f: impl FnOnce() -> T) -> T {
+    unsafe { IN_EXECUTOR = true };
+    let r = f();
+    unsafe { IN_EXECUTOR = false };
+    r
+}
+#[cfg(not(kani))]
+pub fn in_executor<T>(f: impl FnOnce() -> T) -> T {
+    futures_executor::block_on(async move { f() })
+}
+
 #[cfg(kani)]
 pub fn reached() {
     kani::cover!(true, "harness end reached");
@@ -144,6 +161,8 @@ pub mod stubs {
     /// Model of `futures_executor::block_on`: poll the future in a loop with a no-op waker (the real
     /// one parks the thread between polls; for a single future that is observationally the same).
     pub fn block_on_stub<F: core::future::Future>(f: F) -> F::Output {
+        // the real executor refuses to nest ("cannot execute `LocalPool` executor from within another executor")
+        assert!(!unsafe { crate::common::IN_EXECUTOR }, "blocking executor started from inside an async poll");
         crate::tpl::block(f)
     }
     /// Cheapest model of `String::from_utf8_lossy`, for pure totality harnesses: the decoded text is
